@@ -35,150 +35,47 @@ func TestVerif_Probe(t *testing.T) {
 	admin := srv.Session(t, "admin", "")
 	db := srv.NewDBName()
 	admin.MustExec(t, "CREATE DATABASE "+db)
-	a := srv.Session(t, "a", db)
-	b := srv.Session(t, "b", db)
-	c := srv.Session(t, "c", db)
-	ex(t, a, "CREATE TABLE t (pk INT PRIMARY KEY, c1 INT, c2 INT)")
-	ex(t, a, "INSERT INTO t VALUES (1,1,1),(2,2,2)")
+	a := txOpen(t, srv, "a", db)
+	b := txOpen(t, srv, "b", db)
+	ex(t, a, "CREATE TABLE t1 (pk INT PRIMARY KEY, c1 INT)")
+	ex(t, a, "INSERT INTO t1 VALUES (1,1),(2,2),(3,3),(4,4),(5,5)")
 	ex(t, a, "CALL dolt_commit('-Am','init')")
 	ex(t, a, "CALL dolt_branch('b1')")
-
-	t.Logf("== 1. what starts a txn under autocommit=0")
-	ex(t, a, "SET autocommit=0")
-	ex(t, b, "INSERT INTO t VALUES (3,3,3)")
-	show(t, a, "after SET autocommit=0, b inserted 3", "SELECT * FROM t")
-	ex(t, a, "COMMIT")
-	ex(t, a, "SET @x=1")
-	ex(t, b, "INSERT INTO t VALUES (4,4,4)")
-	show(t, a, "after SET @x, b inserted 4", "SELECT * FROM t")
-	ex(t, a, "COMMIT")
-	ex(t, a, "SELECT 1")
-	ex(t, b, "INSERT INTO t VALUES (5,5,5)")
-	show(t, a, "after SELECT 1, b inserted 5", "SELECT * FROM t")
-	ex(t, a, "ROLLBACK")
-	ex(t, a, "USE "+db)
-	ex(t, b, "INSERT INTO t VALUES (6,6,6)")
-	show(t, a, "after USE, b inserted 6", "SELECT * FROM t")
-	ex(t, a, "COMMIT")
-
-	t.Logf("== 2. BEGIN inside txn; SET autocommit=1 inside txn")
-	ex(t, a, "INSERT INTO t VALUES (10,10,10)")
-	ex(t, a, "BEGIN")
-	show(t, b, "b after a: insert 10; BEGIN", "SELECT * FROM t WHERE pk>=10")
-	ex(t, a, "INSERT INTO t VALUES (11,11,11)")
-	ex(t, a, "SET autocommit=1")
-	show(t, b, "b after a: insert 11; SET autocommit=1", "SELECT * FROM t WHERE pk>=10")
-	ex(t, a, "SET autocommit=0")
-	ex(t, a, "COMMIT")
-
-	t.Logf("== 3. cross-branch reads in txn")
-	ex(t, a, "COMMIT")
-	show(t, a, "a starts txn on main", "SELECT * FROM t WHERE pk>=100")
-	ex(t, c, "USE `"+db+"/b1`")
-	ex(t, c, "INSERT INTO t VALUES (100,1,1)")
-	show(t, a, "a reads db/b1.t after c insert 100 on b1", "SELECT * FROM `"+db+"/b1`.t")
-	show(t, a, "a reads AS OF b1", "SELECT * FROM t AS OF 'b1'")
-	ex(t, c, "CALL dolt_commit('-Am','c on b1')")
-	show(t, a, "a reads db/b1.t after c dolt_commit", "SELECT * FROM `"+db+"/b1`.t")
-	show(t, a, "a reads AS OF b1 after c dolt_commit", "SELECT * FROM t AS OF 'b1'")
-	ex(t, a, "COMMIT")
-	show(t, a, "a new txn reads db/b1.t", "SELECT * FROM `"+db+"/b1`.t")
-	show(t, a, "a new txn AS OF b1", "SELECT * FROM t AS OF 'b1'")
-	ex(t, a, "COMMIT")
-
-	t.Logf("== 4. cross-branch write")
-	ex(t, a, "INSERT INTO `"+db+"/b1`.t VALUES (101,1,1)")
-	show(t, a, "a own write on b1", "SELECT * FROM `"+db+"/b1`.t")
-	show(t, c, "c on b1 before a commit", "SELECT * FROM t")
-	ex(t, a, "INSERT INTO t VALUES (12,12,12)")
-	ex(t, a, "COMMIT")
-	ex(t, a, "ROLLBACK")
-	show(t, c, "c on b1 after a commit attempt", "SELECT * FROM t")
-
-	t.Logf("== 5. conflicts")
+	t.Logf("== 1: failed dolt_commit inside tx")
 	ex(t, b, "SET autocommit=0")
-	ex(t, a, "UPDATE t SET c1=100 WHERE pk=1")
-	ex(t, b, "UPDATE t SET c2=200 WHERE pk=1")
-	ex(t, a, "COMMIT")
+	show(t, b, "b snapshot", "SELECT * FROM t1")
+	ex(t, b, "CALL dolt_commit('-am','x')")
+	ex(t, a, "DELETE FROM t1 WHERE pk=5")
+	show(t, b, "b after failed dolt_commit + a delete 5", "SELECT * FROM t1")
 	ex(t, b, "COMMIT")
-	show(t, c, "cellwise merge", "SELECT * FROM `"+db+"/main`.t WHERE pk=1")
-	ex(t, a, "UPDATE t SET c1=101 WHERE pk=1")
-	ex(t, b, "UPDATE t SET c1=102 WHERE pk=1")
-	ex(t, b, "INSERT INTO t VALUES (50,5,5)")
-	ex(t, a, "COMMIT")
+	t.Logf("== 2: dolt_checkout inside tx")
+	show(t, b, "b snapshot", "SELECT * FROM t1")
+	ex(t, b, "CALL dolt_checkout('main')")
+	ex(t, a, "DELETE FROM t1 WHERE pk=4")
+	show(t, b, "b after checkout main + a delete 4", "SELECT * FROM t1")
 	ex(t, b, "COMMIT")
-	show(t, b, "b after failed commit", "SELECT * FROM t WHERE pk in (1,50)")
-	show(t, b, "b status", "SELECT * FROM dolt_status")
-	show(t, b, "b conflicts", "SELECT * FROM dolt_conflicts")
+	show(t, b, "b snapshot", "SELECT * FROM t1")
+	ex(t, b, "CALL dolt_checkout('b1')")
+	ex(t, a, "DELETE FROM t1 WHERE pk=3")
+	show(t, b, "b after checkout b1 + a delete 3 (main)", "SELECT * FROM `"+db+"/main`.t1")
+	ex(t, b, "CALL dolt_checkout('main')")
+	show(t, b, "b after checkout main", "SELECT * FROM t1")
+	ex(t, b, "COMMIT")
+	t.Logf("== 3: other failing statement inside tx")
+	show(t, b, "b snapshot", "SELECT * FROM t1")
+	ex(t, b, "INSERT INTO t1 VALUES (1,1)")
+	ex(t, a, "DELETE FROM t1 WHERE pk=2")
+	show(t, b, "b after dup error + a delete 2", "SELECT * FROM t1")
+	ex(t, b, "COMMIT")
+	t.Logf("== 4: failing CALL inside tx with own writes")
+	ex(t, b, "INSERT INTO t1 VALUES (7,7)")
+	ex(t, b, "CALL dolt_commit('-m','x')")
+	show(t, b, "b after failed dolt_commit(no -a)", "SELECT * FROM t1")
+	ex(t, b, "CALL dolt_commit('-am','y','--bogus')")
+	show(t, b, "b after failed dolt_commit(bogus)", "SELECT * FROM t1")
+	ex(t, b, "CALL dolt_checkout('nonexistent')")
+	show(t, b, "b after failed dolt_checkout", "SELECT * FROM t1")
+	show(t, a, "a", "SELECT * FROM t1")
 	ex(t, b, "ROLLBACK")
-	ex(t, a, "DELETE FROM t WHERE pk=2")
-	ex(t, b, "UPDATE t SET c1=22 WHERE pk=2")
-	ex(t, a, "COMMIT")
-	ex(t, b, "COMMIT")
-	ex(t, a, "INSERT INTO t VALUES (60,6,6)")
-	ex(t, b, "INSERT INTO t VALUES (60,6,6)")
-	ex(t, a, "COMMIT")
-	ex(t, b, "COMMIT")
-	ex(t, a, "INSERT INTO t VALUES (61,6,6)")
-	ex(t, b, "INSERT INTO t VALUES (61,6,7)")
-	ex(t, a, "COMMIT")
-	ex(t, b, "COMMIT")
-	ex(t, a, "DELETE FROM t WHERE pk=60")
-	ex(t, b, "DELETE FROM t WHERE pk=60")
-	ex(t, a, "COMMIT")
-	ex(t, b, "COMMIT")
-	ex(t, a, "UPDATE t SET c1=7 WHERE pk=61")
-	ex(t, b, "UPDATE t SET c1=7, c2=8 WHERE pk=61")
-	ex(t, a, "COMMIT")
-	ex(t, b, "COMMIT")
-	show(t, b, "61", "SELECT * FROM t WHERE pk=61")
-	// update then revert vs modify
-	ex(t, a, "UPDATE t SET c1=8 WHERE pk=61")
-	ex(t, a, "UPDATE t SET c1=7 WHERE pk=61")
-	ex(t, b, "UPDATE t SET c1=9 WHERE pk=61")
-	ex(t, b, "COMMIT")
-	ex(t, a, "COMMIT")
-	show(t, a, "61", "SELECT * FROM t WHERE pk=61")
-	// delete+reinsert different value vs modify other col
-	ex(t, a, "DELETE FROM t WHERE pk=61")
-	ex(t, a, "INSERT INTO t VALUES (61,1,8)")
-	ex(t, b, "UPDATE t SET c2=9 WHERE pk=61")
-	ex(t, a, "COMMIT")
-	ex(t, b, "COMMIT")
-	show(t, a, "61", "SELECT * FROM t WHERE pk=61")
-	ex(t, b, "ROLLBACK")
-
-	t.Logf("== 6. dolt_commit in txn")
-	ex(t, a, "INSERT INTO t VALUES (70,7,7)")
-	ex(t, b, "INSERT INTO t VALUES (71,7,7)")
-	ex(t, b, "COMMIT")
-	ex(t, a, "CALL dolt_commit('-Am','a70')")
-	show(t, c, "HEAD main", "SELECT * FROM `"+db+"/main`.t AS OF 'HEAD' WHERE pk>=70")
-	show(t, c, "WORKING main", "SELECT * FROM `"+db+"/main`.t WHERE pk>=70")
-	show(t, c, "status main", "SELECT * FROM `"+db+"/main`.dolt_status")
-	ex(t, a, "UPDATE t SET c1=1 WHERE pk=70")
-	ex(t, b, "UPDATE t SET c1=2 WHERE pk=70")
-	ex(t, b, "COMMIT")
-	ex(t, a, "CALL dolt_commit('-Am','a70 again')")
-	show(t, a, "a after failed dolt_commit", "SELECT * FROM t WHERE pk>=70")
-	ex(t, a, "ROLLBACK")
-	ex(t, a, "CALL dolt_commit('-Am','nothing')")
-	ex(t, a, "CALL dolt_commit('-Am','nothing2')")
-	ex(t, a, "ROLLBACK")
-	show(t, a, "log", "SELECT message FROM dolt_log")
-
-	t.Logf("== 7. checkout in txn, dup key")
-	ex(t, a, "INSERT INTO t VALUES (80,8,8)")
-	ex(t, a, "INSERT INTO t VALUES (80,8,8)")
-	ex(t, a, "INSERT INTO t VALUES (81,8,8),(80,1,1)")
-	show(t, a, "after failed multi-row insert", "SELECT * FROM t WHERE pk>=80")
-	ex(t, a, "CALL dolt_checkout('b1')")
-	show(t, a, "on b1", "SELECT * FROM t WHERE pk>=80")
-	ex(t, a, "CALL dolt_checkout('main')")
-	show(t, a, "back on main", "SELECT * FROM t WHERE pk>=80")
-	ex(t, a, "ROLLBACK")
-	show(t, a, "active_branch", "SELECT active_branch()")
-	ex(t, a, "START TRANSACTION READ ONLY")
-	ex(t, a, "INSERT INTO t VALUES (90,8,8)")
-	ex(t, a, "ROLLBACK")
+	show(t, a, "a", "SELECT * FROM t1")
 }
